@@ -6,7 +6,7 @@ import numpy as np
 import core
 import gen
 
-PROOF_MODULES = ["UnytProofs.C03", "UnytProofs.C03History", "UnytProofs.C03Routes"]
+PROOF_MODULES = ["UnytProofs.C03", "UnytProofs.C03History", "UnytProofs.C03Routes", "UnytProofs.C03Tab"]
 
 EPS = {"float64": 2.0 ** -52, "float32": 2.0 ** -23, "complex128": 2.0 ** -52, "int32": 2.0 ** -23, "int64": 2.0 ** -52}
 
@@ -282,6 +282,9 @@ def run(tier, seed):
     hist_expect = []
     route_lines = []
     route_expect = []
+    base_lines = []
+    base_expect = []
+    seen_base = {}
     dtypes = ["float64", "float32", "complex128", "int32"]
     max_triples = 1500 if tier == "quick" else 40000
     for fam, names in fams.items():
@@ -417,6 +420,13 @@ def run(tier, seed):
                     continue
                 tolb = 512 * EPS["float64"] * (mag(raw, rb.d) + abs(ua.base_offset))
                 chk.count("base-routes:" + sysname)
+                if sysname not in seen_base.setdefault(a, set()):
+                    seen_base[a].add(sysname)
+                    try:
+                        base_lines.append("\t".join(["c03.base", sysname, str(core.f2b(float(raw[0])))] + list(map(str, gen.expr_wire(ua.expr)))))
+                        base_expect.append((a, sysname, float(rb.d[0]), float(y.d[0]), float(via.d[0]), tolb))
+                    except ValueError:
+                        pass
                 for rn, rv in (("convert_to_base", y), ("in_" + sysname, rs), ("convert_to_" + sysname, z), ("to(get_base_equivalent)", via)):
                     if not near(rv.d, rb.d, tolb) or rv.units != rb.units:
                         chk.fail(f"base-routes|{famkind}|{rn}", f"{rn}({sysname}) disagrees with in_base",
@@ -491,6 +501,18 @@ def run(tier, seed):
             bad = not (abs(core.b2f(rep[1]) - r_in) <= tol and abs(core.b2f(rep[2]) - r_cv) <= tol)
         if bad:
             chk.disagree("c03.routes", f"{a}->{b}: model {rep} vs implementation in_units {r_in} convert_to_units {r_cv}", {"units": [a, b]})
+    try:
+        breplies = core.Model("drv_c03").ask(base_lines)
+    except Exception as e:
+        breplies = []
+        chk.disagree("driver", repr(e))
+    for rep, (a, sysname, r_in, r_cv, r_via, tolb) in zip(breplies, base_expect):
+        chk.count("model:c03.base")
+        bad = rep[0] != "ok" or len(rep) != 4 or any(f.startswith("err") for f in rep[1:])
+        if not bad:
+            bad = not all(abs(core.b2f(f) - r) <= tolb for f, r in zip(rep[1:], (r_in, r_cv, r_via)))
+        if bad:
+            chk.disagree("c03.base", f"{a} into {sysname}: model {rep} vs implementation in_base {r_in} convert_to_base {r_cv} to(get_base_equivalent) {r_via}", {"units": [a, sysname]})
     rule = ("ordered triples (A,B,C) of commensurable unit strings per family (temperature incl. SI prefixes, angle incl. lat/lon, "
             "EM pairs with prefixes, table groups by dimension, re-expressed compounds) x seeded data x dtype x shape; "
             "plus conversion histories (in-place / copy calls on one array interleaved with calls on temporaries built from unit names, 6 rounds each); "
